@@ -515,6 +515,12 @@ func genCase(r *gen.Rand, o *gen.Out, fanOnly bool) *fcase {
 	c.tree = root
 	nbatch := r.Range(1, 3)
 	next := 1
+	// a tenth of the cases come from the "bad source position" family: many empty / nil source positions, so that they
+	// meet nacks, partial DLQ acknowledgments and window refusals in the same batch (Worker.Nack's validateAckPositions)
+	badPos := r.Chance(1, 10)
+	if badPos {
+		o.Count("family=bad-source-positions")
+	}
 	for i := 0; i < nbatch; i++ {
 		n := r.Range(1, 6)
 		if r.Chance(1, 10) {
@@ -523,10 +529,10 @@ func genCase(r *gen.Rand, o *gen.Out, fanOnly bool) *fcase {
 		var bt []rec
 		for j := 0; j < n; j++ {
 			p := pos{kind: 'k', k: next}
-			if r.Chance(1, 60) {
+			if r.Chance(1, 60) || (badPos && r.Chance(1, 4)) {
 				p = pos{kind: 'e'}
 				o.Count("src-pos=empty")
-			} else if r.Chance(1, 80) {
+			} else if r.Chance(1, 80) || (badPos && r.Chance(1, 8)) {
 				p = pos{kind: 'n'}
 				o.Count("src-pos=nil")
 			} else if r.Chance(1, 80) && next > 1 {
